@@ -128,6 +128,12 @@ func c15History(c *Case) {
 		initB = append(initB, c15Value(rng))
 	}
 	body := []Stmt{ha.init(initA...), hb.init(initB...), dump(0)}
+	// a second name for the first array: every operation through either name is seen through both
+	var alias Expr
+	if rng.IntN(2) == 0 {
+		alias = V("al")
+		body = append(body, asg(alias, a), Pr(S("alias"), jsonOf(alias), Meth(alias, "length")))
+	}
 	in := []MInput{{Name: "in.json", Values: []any{map[string]any{}}}}
 	n := 5 + rng.IntN(36)
 	kinds := map[string]int{}
@@ -137,8 +143,15 @@ func c15History(c *Case) {
 		if rng.IntN(4) == 0 {
 			x, y = b, a
 		}
+		if alias != nil && rng.IntN(3) == 0 {
+			x = alias
+			kinds["through-second-name"]++
+		}
 		st, kind := c15Op(rng, x, y, "op"+strconv.Itoa(step))
 		cand := append(append([]Stmt{}, body...), st, dump(step))
+		if alias != nil {
+			cand = append(cand, Pr(S("al"+strconv.Itoa(step)), jsonOf(alias), Meth(alias, "length")))
+		}
 		mo := RunModel(c15Wrap(cand), in, nil, ModelOpts{Budget: 200000})
 		if mo.Class != "ok" || !noPinned(mo.Tags) {
 			if mo.Class == "runtime" && noPinned(mo.Tags) && rng.IntN(15) == 0 {
@@ -171,8 +184,12 @@ func c15History(c *Case) {
 		cur := body
 		for changed := true; changed; {
 			changed = false
-			for k := 3; k+1 < len(cur); k += 2 {
-				cand := append(append([]Stmt{}, cur[:k]...), cur[k+2:]...)
+			base, stride := 3, 2
+			if alias != nil {
+				base, stride = 5, 3
+			}
+			for k := base; k+stride-1 < len(cur); k += stride {
+				cand := append(append([]Stmt{}, cur[:k]...), cur[k+stride:]...)
 				rr := m2(c, &M2Case{Prog: c15Wrap(cand), Files: files, WantRoot: true, Quiet: true})
 				if rr.Verdict == "violated" && noPinned(rr.Mod.Tags) {
 					cur = cand
@@ -400,13 +417,13 @@ func c15Run(c *Case) {
 func init() {
 	register(&Prop{
 		ID: "C15", Level: "exploration",
-		Rule:          "sampled histories of 5-40 operations (push pop popfirst index-read index-write length contains sort, nested method calls inside arguments) over two arrays each held by exactly one name (variable, $-path, object member, array element), element values of every kind; after every operation the program prints the result and json()/length() of both arrays, compared with an ideal-list model; candidate steps leaving the stated semantics are discarded with the model. Enumerated: every ordered pair of 13 operations on arrays of length 0,1,2,5 (676 programs); contains(v) vs v == a[0] on 17x17 value pairs (law on the implementation alone); sort() of 0-3 elements gives a new array (24 programs storing / pushing / popping through the result and the receiver afterwards); 40 sorts of 13-52 elements with equal keys of different kinds (stable). Non-trivial = history with a removal followed by an append/extension, or a nested call; distinct by program text.",
+		Rule:          "sampled histories of 5-40 operations (push pop popfirst index-read index-write length contains sort, nested method calls inside arguments) over two arrays held by a variable, $-path, object member or array element, in half of the histories the first one also by a second name through which a third of the operations go (a length change is seen through every reference), element values of every kind; after every operation the program prints the result and json()/length() of both arrays, compared with an ideal-list model; candidate steps leaving the stated semantics are discarded with the model. Enumerated: every ordered pair of 13 operations on arrays of length 0,1,2,5 (676 programs); contains(v) vs v == a[0] on 17x17 value pairs (law on the implementation alone); sort() of 0-3 elements gives a new array (24 programs storing / pushing / popping through the result and the receiver afterwards); 40 sorts of 13-52 elements with equal keys of different kinds (stable). Non-trivial = history with a removal followed by an append/extension, or a nested call; distinct by program text.",
 		NumCases:      c15Cases,
 		Run:           c15Run,
 		MinConclusive: func(tier string) int { return 3000 },
 		Exhaustive: func(tier string) string {
 			return "ordered pairs of 13 list operations x 4 initial lengths; contains/== value-pair table"
 		},
-		Assumptions: []string{"ideal-list semantics of DESIGN.md section 3.10", "each array is held by exactly one name (length changes through a second reference are known finding K-ALIAS under C09)"},
+		Assumptions: []string{"ideal-list semantics of DESIGN.md section 3.10", "aliasing semantics of DESIGN.md section 3.5 (a length change through one reference is seen through all; repaired, see findings/KNOWN_FINDINGS.txt)"},
 	})
 }
